@@ -450,6 +450,13 @@ def negative_controls(run, good):
 # ------------------------------------------------------------------ main
 def main(tier):
     run = Run("C08", tier)
+    try:
+        return _main(run, tier)
+    finally:
+        run.cleanup()       # also on MachineryError: no scratch directories left behind
+
+
+def _main(run, tier):
     sd = seed()
     rng = random.Random(sd * 104729 + 8)
     quick = tier == "quick"
